@@ -57,6 +57,10 @@ impl Pages {
         Ok(())
     }
 
+    pub fn has_unflushed_change(&self) -> bool {
+        self.change_at.is_some()
+    }
+
     pub fn len(&self) -> usize {
         self.vec.len()
     }
